@@ -58,7 +58,9 @@ def _b_files(mk, uk, ls):
                       # B extends A's type and overrides one of its bindings (spelled in another letter case); the other one is inherited
                       "type, extends(shape) :: square", "integer :: side", "contains", "procedure :: describe => describe_square", "end type square",
                       "contains", "subroutine describe_square(self)", "class(square) :: self", "end subroutine describe_square",
-                      "end module app"]}
+                      "end module app",
+                      # every kind of program unit can use a module of the other project
+                      "block data b_init", "use geom, only: shape", "type(shape) :: origin", "common /geometry/ origin", "end block data b_init"]}
 
 
 def _classify(ent):
@@ -87,13 +89,21 @@ def _observe(p):
             "type(root_t)": choice.apply(_classify, vs[2].proto[0]) if len(vs) > 2 and vs[2].proto else "unresolved",
             "type(root2_t)": choice.apply(_classify, vs[3].proto[0]) if len(vs) > 3 and vs[3].proto else "unresolved",
             "find(shared)": "none" if found is None else choice.apply(_classify, found),
+            "block data: type(shape)": _bd_proto(p),
             "bindings of square": binds}
+
+
+def _bd_proto(p):
+    bd = list(p.blockdata)
+    # the members of a common block are listed with the block, not with the unit
+    vs = (list(bd[0].variables) + [v for c in bd[0].common for v in c.variables if not isinstance(v, str)]) if bd else []
+    return choice.apply(_classify, vs[0].proto[0]) if vs and vs[0].proto else "unresolved"
 
 
 def rule(local_kinds, local_shared):
     return {"use kinds": "local" if local_kinds else "external", "use geom": "external",
             "type(tol_t)": "local" if local_kinds else "external", "type(shape)": "external", "type(root_t)": "external", "type(root2_t)": "external",
-            "find(shared)": "local" if local_shared else "external",
+            "find(shared)": "local" if local_shared else "external", "block data: type(shape)": "external",
             # B's own `describe` replaces A's `Describe`; `area` is inherited from A
             "bindings of square": [("area", "external"), ("describe", "local")]}
 
@@ -139,7 +149,7 @@ def local_first(ctx):
             E.reachable("correlated")
             want = choice.apply(rule, mk[1], ls[1])
             h.want = want
-            for k in ("use kinds", "use geom", "type(tol_t)", "type(shape)", "type(root_t)", "type(root2_t)", "find(shared)", "bindings of square"):
+            for k in ("use kinds", "use geom", "type(tol_t)", "type(shape)", "type(root_t)", "type(root2_t)", "find(shared)", "bindings of square", "block data: type(shape)"):
                 E.require(choice.apply(lambda g, w_, k=k: g == w_[k], got[k], want), f"{k}: wrong side (local/external) chosen")
 
         E = sym.Engine(ctx, max_paths=20000, incremental=True)
